@@ -561,9 +561,10 @@ func c06Mid(full bool) []caldav.CompFilter {
 			for _, l := range leafs {
 				out = append(out, caldav.CompFilter{Name: n, Start: rg[0], End: rg[1], Comps: []caldav.CompFilter{l}})
 			}
-			if full {
+			{
+				// a node carrying BOTH property filters and nested component filters (all must hold)
 				for pi, p := range props {
-					if pi%7 != 0 {
+					if (full && pi%7 != 0) || (!full && pi%41 != 0) {
 						continue
 					}
 					for _, l := range leafs {
@@ -598,9 +599,9 @@ func c06Roots(full bool) []caldav.CompFilter {
 		for _, p := range rp {
 			out = append(out, caldav.CompFilter{Name: n, Props: []caldav.PropFilter{p}})
 		}
-		for _, m := range mids {
+		for mi, m := range mids {
 			out = append(out, caldav.CompFilter{Name: n, Comps: []caldav.CompFilter{m}})
-			if n == "VCALENDAR" && full {
+			if n == "VCALENDAR" && (full || mi%9 == 0) {
 				out = append(out, caldav.CompFilter{Name: n, Props: []caldav.PropFilter{rp[0]}, Comps: []caldav.CompFilter{m}})
 				out = append(out, caldav.CompFilter{Name: n, Props: []caldav.PropFilter{rp[3]}, Comps: []caldav.CompFilter{m}})
 			}
